@@ -54,6 +54,8 @@ pub fn dispatch(args: &[String]) -> Option<i32> {
                 cfg.allow_lowerless_hyphen = true;
                 cfg.allow_empty_alt = true;
                 cfg.allow_zero_zero = false;
+                cfg.long_qualifier = false; // node applies its 256-character version limit to the desugared comparator
+                cfg.random_pre = true; // ASTs with numeric identifiers >= 2^53 are skipped below (node loses precision)
                 (ga::range_ast_with(cfg), crate::props::c01::extra_versions(pool))
             });
             // the single-token table first
@@ -62,8 +64,16 @@ pub fn dispatch(args: &[String]) -> Option<i32> {
                 let probes: Vec<String> = crate::props::c01::probe_grid().iter().step_by(3).map(|v| v.text()).collect();
                 println!("{}", serde_json::json!({"ast": ast, "text": ast.render(), "probes": probes}));
             }
-            for _ in 0..n {
+            let mut k = 0;
+            while k < n {
                 let (ast, extra) = strat.new_tree(&mut r).unwrap().current();
+                let big = ast.all_partials().iter().any(|(p, _)| {
+                    p.pre.iter().chain(p.build.iter()).any(|t| t.bytes().all(|b| b.is_ascii_digit()) && (t.len() > 15 || t.parse::<u64>().map(|x| x >= (1 << 53)).unwrap_or(true)))
+                });
+                if big {
+                    continue;
+                }
+                k += 1;
                 let sets = npm::desugar(&ast);
                 let pv = probes::probes(&crate::props::c01::interesting(&sets), &extra);
                 let probes: Vec<String> = pv.iter().filter(|v| js_safe(v)).map(|v| v.strip_build().text()).collect();
